@@ -331,6 +331,8 @@ def run(run: Run):
     stage1(run)
     regex_language(run)
     run.not_decided.append("URL-encoding of values (api-core); Method.field_headers' regex extraction of path variables (bounded native replay only)")
+    run.native_standin("props.C06_native", "scenarios")
+
 
 
 def falsify(run, group, info):
